@@ -205,6 +205,15 @@ static void report(const char* what, int hits, int ctl, long first) {
 
 /* a phrase all of whose 16 tokens are recognised by two lists (the MULT_LANG exit): words of language a that language b
  * finds too; the indices the decoder holds are those of the FIRST list in registry order that recognises all of them */
+#ifdef DRV_NO_LANG
+static int find_exact(const polyseed_lang* L, const char* w) {
+    for (int j = 0; j < POLYSEED_LANG_SIZE; ++j) if (strcmp(L->words[j], w) == 0) return j;
+    return -1;
+}
+#define FIND_WORD find_exact
+#else
+#define FIND_WORD polyseed_lang_find_word
+#endif
 static void build_mult(int li) {
     int nl = polyseed_get_num_langs();
     for (int pass = 0; pass < 2 && !g_have_mult; ++pass)
@@ -218,17 +227,29 @@ static void build_mult(int li) {
             size_t len = 0;
             for (int i = 0; i < POLYSEED_LANG_SIZE && n < 16; i += 7) {
                 const char* w = La->words[i];
-                if (polyseed_lang_find_word(Lb, w) >= 0 && len + strlen(w) + 1 < POLYSEED_STR_SIZE - 1) { tok[n++] = w; len += strlen(w) + 1; }
+                if (FIND_WORD(Lb, w) >= 0 && len + strlen(w) + 1 < POLYSEED_STR_SIZE - 1) { tok[n++] = w; len += strlen(w) + 1; }
             }
             if (n < 16) continue;
             g_phrase_mult[0] = 0;
             for (int i = 0; i < 16; ++i) { if (i) strcat(g_phrase_mult, " "); strcat(g_phrase_mult, tok[i]); }
             for (int l = 0; l < nl; ++l) {
                 int all = 1;
-                for (int i = 0; i < 16; ++i) { int x = polyseed_lang_find_word(polyseed_get_lang(l), tok[i]); if (x < 0) { all = 0; break; } g_idx_mult[i] = (unsigned)x; }
+                for (int i = 0; i < 16; ++i) { int x = FIND_WORD(polyseed_get_lang(l), tok[i]); if (x < 0) { all = 0; break; } g_idx_mult[i] = (unsigned)x; }
                 if (all) { g_have_mult = 1; break; }
             }
         }
+    }
+}
+
+/* the 16 word indices of a phrase the library produced in g_lang: its NFKD form split at spaces, each token looked up
+ * in the list by exact comparison (no internal function of the library is needed) */
+static void indices_of(const char* phrase, unsigned* out) {
+    static char buf[POLYSEED_STR_SIZE];
+    real_nfkd(phrase, buf);
+    int k = 0;
+    for (char* t = strtok(buf, " "); t && k < 16; t = strtok(NULL, " "), ++k) {
+        out[k] = 9999;
+        for (int j = 0; j < POLYSEED_LANG_SIZE; ++j) if (strcmp(g_lang->words[j], t) == 0) { out[k] = (unsigned)j; break; }
     }
 }
 
@@ -252,23 +273,13 @@ int main(int argc, char** argv) {
     polyseed_create(0, &s);
     polyseed_store(s, g_store);
     polyseed_encode(s, g_lang, POLYSEED_MONERO, g_phrase);
-    {   /* indices of the phrase */
-        polyseed_data d; gf_poly p; memset(&p, 0, sizeof p);
-        memcpy(&d, s, sizeof d);
-        p.coeff[0] = d.checksum; polyseed_data_to_poly(&d, &p);
-        for (int i = 0; i < 16; ++i) g_idx[i] = (unsigned)p.coeff[i];
-    }
+    indices_of(g_phrase, g_idx);
     polyseed_free(s);
     polyseed_enable_features(1);
     polyseed_create(1, &s);
     polyseed_store(s, g_store_unsup);
     polyseed_encode(s, g_lang, POLYSEED_MONERO, g_phrase_unsup);
-    {
-        polyseed_data d; gf_poly p; memset(&p, 0, sizeof p);
-        memcpy(&d, s, sizeof d);
-        p.coeff[0] = d.checksum; polyseed_data_to_poly(&d, &p);
-        for (int i = 0; i < 16; ++i) g_idx_unsup[i] = (unsigned)p.coeff[i];
-    }
+    indices_of(g_phrase_unsup, g_idx_unsup);
     polyseed_free(s);
     polyseed_enable_features(0);
     memcpy(g_store_badchk, g_store, sizeof g_store); g_store_badchk[30] ^= 1;
